@@ -211,6 +211,18 @@ pub fn op_stage<'src>(
     files: &'src [(PathBuf, String)],
     detail: &Value,
 ) -> Result<OpStage<'src>, Failure> {
+    op_stage_with(schema_doc, None, n_schema_files, files, detail)
+}
+
+/// `schema_value`: the schema value to check against when it does not come from `schema_doc` (introspection
+/// route: the CLI checks operations against the value read from the JSON, not against the re-created AST)
+pub fn op_stage_with<'src>(
+    schema_doc: &TypeSystemDocument<'src>,
+    schema_value: Option<&graphql_type_system::Schema<std::borrow::Cow<'_, str>, Pos>>,
+    n_schema_files: usize,
+    files: &'src [(PathBuf, String)],
+    detail: &Value,
+) -> Result<OpStage<'src>, Failure> {
     let mut parsed = vec![];
     let mut command_errors = vec![];
     for (i, (path, text)) in files.iter().enumerate() {
@@ -250,8 +262,15 @@ pub fn op_stage<'src>(
     if !resolve_errors.is_empty() {
         return Ok(OpStage { files: vec![], command_errors, resolve_errors, errors: vec![] });
     }
-    let schema = ast_to_type_system(schema_doc);
-    let ctx = OperationCheckContext::new(&schema);
+    let converted;
+    let schema = match schema_value {
+        Some(s) => s,
+        None => {
+            converted = ast_to_type_system(schema_doc);
+            &converted
+        }
+    };
+    let ctx = OperationCheckContext::new(schema);
     let mut errors = vec![];
     for f in &out {
         let errs = guard(|| check_operation_document(&f.doc, &ctx)).map_err(|p| panic_failure("check_operation_document", &p, detail.clone()))?;
@@ -273,6 +292,7 @@ use nitrogql_printer::{
 };
 use sourcemap_writer::{SourceWriter, SourceWriterBuffers};
 
+#[derive(Clone)]
 pub struct SchemaGenConfig {
     pub scalar_types: HashMap<String, nitrogql_config_file::ScalarTypeConfig>,
     pub allow_undefined_as_optional_input: bool,
@@ -308,6 +328,59 @@ impl SchemaGenConfig {
         }
         y
     }
+}
+
+/// The declaration files as the built CLI leaves them in a directory in which `generate` already ran with
+/// `earlier` (other options, same inputs): (schema declarations, operation declarations, resolvers declarations).
+/// `schema_files`: (file name, text), `.graphqls` or `.json`.
+pub fn cli_generate_after_earlier_run(
+    schema_files: &[(String, String)],
+    op_text: &str,
+    cfg: &SchemaGenConfig,
+    earlier: &SchemaGenConfig,
+    detail: &Value,
+) -> Result<(String, String, String), Failure> {
+    use crate::cli::{run_cli, Project};
+    static BASE: std::sync::OnceLock<PathBuf> = std::sync::OnceLock::new();
+    let base = BASE.get_or_init(|| crate::runner::work_dir("cli-history"));
+    let proj = Project::new(base);
+    let schema_glob = if schema_files.iter().any(|f| f.0.ends_with(".json")) { format!("./{}", schema_files[0].0) } else { "./*.graphqls".to_string() };
+    let yaml = |c: &SchemaGenConfig| -> String {
+        let y = c.to_config_yaml().replacen("schema: s.graphql\ndocuments: o.graphql", &format!("schema: \"{schema_glob}\"\ndocuments: ./ops.graphql"), 1);
+        // (a schema file with runtime code cannot be a .d.ts)
+        let out = if c.emit_schema_runtime { "./schema.ts" } else { "./schema.d.ts" };
+        format!("{y}      schemaOutput: {out}\n      resolversOutput: ./resolvers.d.ts\n")
+    };
+    for (n, t) in schema_files {
+        proj.write(n, t);
+    }
+    proj.write("ops.graphql", op_text);
+    proj.write("graphql.config.yaml", &yaml(earlier));
+    let r1 = run_cli(&proj.dir, &["generate", "--output-format", "json"]);
+    proj.write("graphql.config.yaml", &yaml(cfg));
+    let r2 = run_cli(&proj.dir, &["generate", "--output-format", "json"]);
+    let out = (proj.read(if cfg.emit_schema_runtime { "schema.ts" } else { "schema.d.ts" }), proj.read("ops.d.graphql.ts"), proj.read("resolvers.d.ts"));
+    let d2 = json!({"detail": detail, "config": yaml(cfg), "earlier_config": yaml(earlier), "first_run": r1.stdout.chars().take(300).collect::<String>(), "second_run": r2.stdout.chars().take(300).collect::<String>(), "stderr": r2.stderr.chars().take(300).collect::<String>()});
+    proj.remove();
+    if r1.crashed() || r2.crashed() || r2.status != Some(0) {
+        return Err(Failure::new("cli-generate-failed", format!("generate exits {:?} then {:?} on a valid project", r1.status, r2.status), d2));
+    }
+    match out {
+        (Some(a), Some(b), Some(c)) => Ok((a, b, c)),
+        _ => Err(Failure::new("declaration-file-missing", "generate did not write schema.d.ts / ops.d.graphql.ts / resolvers.d.ts", d2)),
+    }
+}
+
+/// another configuration for the same inputs: every option the declaration files depend on differs
+pub fn other_schema_gen_config(cfg: &SchemaGenConfig) -> SchemaGenConfig {
+    use nitrogql_config_file::ScalarTypeConfig as C;
+    let mut o = cfg.clone();
+    o.allow_undefined_as_optional_input = !cfg.allow_undefined_as_optional_input;
+    o.emit_schema_runtime = !cfg.emit_schema_runtime;
+    for v in o.scalar_types.values_mut() {
+        *v = C::Single("symbol".into());
+    }
+    o
 }
 
 /// operation type printer options built the way the CLI builds them (configuration text -> parse_config ->
@@ -383,14 +456,43 @@ pub fn gen_operation_dts(
     file_index_mapper: Option<Vec<usize>>,
     detail: &Value,
 ) -> Result<SourceWriterBuffers, Failure> {
+    gen_operation_dts_with(schema_doc, None, op, options, file_index_mapper, detail)
+}
+
+pub fn gen_operation_dts_with(
+    schema_doc: &TypeSystemDocument,
+    schema_value: Option<&graphql_type_system::Schema<std::borrow::Cow<'_, str>, Pos>>,
+    op: &OperationDocument,
+    options: OperationTypePrinterOptions,
+    file_index_mapper: Option<Vec<usize>>,
+    detail: &Value,
+) -> Result<SourceWriterBuffers, Failure> {
     guard(|| {
-        let schema = ast_to_type_system(schema_doc);
+        let converted;
+        let schema = match schema_value {
+            Some(s) => s,
+            None => {
+                converted = ast_to_type_system(schema_doc);
+                &converted
+            }
+        };
         let mut writer = SourceWriter::new();
         if let Some(m) = file_index_mapper {
             writer.set_file_index_mapper(m);
         }
-        print_types_for_operation_document(options, &schema, op, &mut writer);
+        print_types_for_operation_document(options, schema, op, &mut writer);
         writer.into_buffers()
     })
     .map_err(|p| panic_failure("print_types_for_operation_document", &p, detail.clone()))
+}
+
+/// The schema as the CLI holds it when the schema file is an introspection result (main.rs load_schema:
+/// schema_from_introspection_json). The declaration printers then get `type_system_to_ast(&value)`.
+pub fn schema_via_introspection<'a>(
+    json_text: &'a str,
+    detail: &Value,
+) -> Result<graphql_type_system::Schema<std::borrow::Cow<'a, str>, Pos>, Failure> {
+    let r = guard(|| nitrogql_introspection::schema_from_introspection_json::<Pos>(json_text))
+        .map_err(|p| panic_failure("schema_from_introspection_json", &p, detail.clone()))?;
+    r.map_err(|e| Failure::new("precondition:introspection-rejected", format!("{e:?}"), detail.clone()))
 }
